@@ -16,6 +16,7 @@ public:
     void Reset() {
         ready = false;
         data = 0;
+        disable_interrupt = 0;
     }
 
     void Send(u16 data) {
